@@ -55,7 +55,7 @@ def h_backfill(ctx, case):
     nas = ctx.choice('n_assignments-1', 3) + 1
     try:
         oracle, result = LL.run_levels(ctx, case, red, levels, names,
-                                       parents, 1, nas, IT)
+                                       parents, case.get('cells', 1), nas, IT)
     except Exception as e:
         ctx.exception(e)
         return 'EXC ' + type(e).__name__
@@ -165,8 +165,11 @@ HARNESSES = [
             expect_reach=['mapped'], selftest=10, split=48),
     Harness('backfill_inferred_levels', h_backfill, setup=LL.setup,
             cases=[{'sizes': s} for s in ([2, 3], [1, 2, 3], [2, 2, 2])]
-            + [{'sizes': [2, 2, 2], 'alias': True}],
-            thorough_cases=[{'sizes': s} for s in
+            + [{'sizes': [2, 2, 2], 'alias': True},
+               # two cells that may share the finer assignment
+               {'sizes': [1, 2], 'cells': 2}],
+            thorough_cases=[{'sizes': [2, 3], 'cells': 2}]
+            + [{'sizes': s} for s in
                             ([2, 3], [2, 2, 3], [1, 2, 3], [2, 3, 3],
                              [2, 3, 4], [2, 2, 2, 3])]
             + [{'sizes': [2, 2, 3], 'alias': True}],
